@@ -240,7 +240,7 @@ class C16(Harness):
                     if jsonschema.Draft7Validator(ps).is_valid(5000):
                         vs.append(V('out-of-bounds-accepted', '%s(%s): instance-level schema %r accepts 5000' % (t, key['cfg'], ps), level='instance-reconfigured', **key))
                     cs = X.param.schema()['p']
-                    if cfg['bounds'] is not None and cfg['bounds'][1] is not None and jsonschema.Draft7Validator(cs).is_valid(500):
+                    if cfg['bounds'] is not None and cfg['bounds'][1] is not None and cfg['bounds'][1] < 500 and jsonschema.Draft7Validator(cs).is_valid(500):
                         vs.append(V('out-of-bounds-accepted', '%s(%s): class-level schema %r accepts 500 after an instance was reconfigured' % (t, key['cfg'], cs), level='class-after-instance', **key))
                     hits['validated'] += 1
                 except Exception as e:
